@@ -22,6 +22,15 @@ def SimArgs (fns : List FnDef) (n : Nat) : Prop :=
       ∃ σ1, ExecC σ code t (.normal σ1) ∧ tmps.map σ1 = vs ∧ Agree env' σ1 ∧ Frame c σ σ1) ∧
     (∀ t v, evalArgs fns n env es = ⟨t, .ret v⟩ → ExecC σ code t (.returned v))
 
+/-- the fields of a record literal: `to` (a temporary below the counter) holds the
+    fields stored so far -/
+def SimFields (fns : List FnDef) (n : Nat) : Prop :=
+  ∀ (es : Exprs) (env : Env) (k i c : Nat) (code : Code) (c' : Nat) (σ : Store) (pre : List Int),
+    lowerFields es (.t k) i c = some (code, c') → Agree env σ → k < c → σ (.t k) = .recd pre → pre.length = i →
+    (∀ t env' fs, evalInts fns n env es = ⟨t, .ok (env', fs)⟩ →
+      ∃ σ1, ExecC σ code t (.normal σ1) ∧ σ1 (.t k) = .recd (pre ++ fs) ∧ Agree env' σ1 ∧ Frame k σ σ1) ∧
+    (∀ t v, evalInts fns n env es = ⟨t, .ret v⟩ → ExecC σ code t (.returned v))
+
 def SimSeq (fns : List FnDef) (n : Nat) : Prop :=
   ∀ (b : Block) (env : Env) (c : Nat) (code : Code) (x : Var) (c' : Nat) (σ : Store),
     lowerBlock b c = some (code, x, c') → Agree env σ →
@@ -82,7 +91,8 @@ theorem SimE.ret {fns n} (hE : SimE fns n) {e env c code value c1 σ t v}
 
 theorem R.ok_eq {α} (a : α) : (R.ok a : R α) = ⟨[], .ok a⟩ := rfl
 
-theorem simE_step {fns n} (hE : SimE fns n) (hA : SimArgs fns n) (hB : SimBlock fns n) (hW : SimWhile fns n) :
+theorem simE_step {fns n} (hE : SimE fns n) (hA : SimArgs fns n) (hF : SimFields fns n) (hB : SimBlock fns n)
+    (hW : SimWhile fns n) :
     SimE fns (n + 1) := by
   intro e env c code value c' σ hl ha
   cases e with
@@ -725,8 +735,88 @@ theorem simE_step {fns n} (hE : SimE fns n) (hA : SimArgs fns n) (hB : SimBlock 
   | mtch s arms => simp [lowerE] at hl
   | «for» x l b => simp [lowerE] at hl
   | ctor k args => simp [lowerE] at hl
-  | record fs => simp [lowerE] at hl
-  | field e1 i => simp [lowerE] at hl
+  | record fs =>
+    simp [lowerE, Option.bind_eq_some_iff] at hl
+    obtain ⟨cf, c1, h1, rfl, rfl, rfl⟩ := hl
+    have m1 := lowerFields_mono fs _ _ _ cf c1 h1
+    have hσ0 : (σ.set (.t c) (.recd [])) (.t c) = .recd [] := by simp
+    have h0 : ExecS σ (.setDisc (.t c) (.recd [])) [] (.normal (σ.set (.t c) (.recd []))) := .setDisc
+    have hF' := hF fs env c 0 (c + 1) cf c1 (σ.set (.t c) (.recd [])) [] h1 (ha.set_tmp _ _) (by omega) hσ0 rfl
+    constructor
+    · intro t env' w h
+      simp only [evalExpr, bind_eq, bind_ok_iff] at h
+      obtain ⟨t1, ⟨env1, fs'⟩, t2, hargs, h2', rfl⟩ := h
+      simp [pure_eq, R.ok] at h2'
+      obtain ⟨rfl, rfl, rfl⟩ := h2'
+      obtain ⟨σ1, hx1, hv1, ha1, hf1⟩ := hF'.1 t1 env1 fs' hargs
+      refine ⟨σ1, t1, [], ?_, by simp [evalValue, hv1], by simp, ha1,
+        (Frame.set_tmp σ _ (Nat.le_refl c)).trans hf1 (Nat.le_refl _)⟩
+      simpa using ExecC.cons h0 hx1
+    · intro t w h
+      simp only [evalExpr, bind_eq, bind_ret_iff] at h
+      rcases h with h | ⟨t1, ⟨env1, fs'⟩, t2, hargs, h2', rfl⟩
+      · simpa using ExecC.cons h0 (hF'.2 t w h)
+      · simp [pure_eq, R.ok] at h2'
+  | field e1 i =>
+    by_cases hvar : ∃ x, e1 = .var x
+    · -- `x.f`: a lazy read of a path
+      obtain ⟨x, rfl⟩ := hvar
+      simp [lowerE] at hl; obtain ⟨rfl, rfl, rfl⟩ := hl
+      constructor
+      · intro t env' w h
+        simp only [evalExpr, bind_eq, bind_ok_iff] at h
+        obtain ⟨t1, ⟨env1, a⟩, t2, hel, h2', rfl⟩ := h
+        cases n with
+        | zero => simp [evalExpr, R.fuel] at hel
+        | succ m =>
+          simp only [evalExpr] at hel
+          cases hx : lookup env x with
+          | none => simp [hx, R.stuck] at hel
+          | some u =>
+            simp [hx, R.ok] at hel
+            obtain ⟨rfl, rfl, rfl⟩ := hel
+            cases u with
+            | recd fs =>
+              cases hfi : fs[i]? with
+              | none => simp [hfi, R.stuck] at h2'
+              | some y =>
+                simp [hfi, pure_eq, R.ok] at h2'
+                obtain ⟨rfl, rfl, rfl⟩ := h2'
+                exact ⟨σ, [], [], .nil, by simp [evalValue, ha x _ hx, payload, hfi], rfl, ha, Frame.refl _ _⟩
+            | _ => simp [R.stuck] at h2'
+      · intro t w h
+        simp only [evalExpr, bind_eq, bind_ret_iff] at h
+        rcases h with h | ⟨t1, ⟨env1, a⟩, t2, hel, h2', rfl⟩
+        · cases n with
+          | zero => simp [evalExpr, R.fuel] at h
+          | succ m =>
+            simp only [evalExpr] at h
+            cases hx : lookup env x <;> simp [hx, R.stuck, R.ok] at h
+        · cases a with
+          | recd fs => cases hfi : fs[i]? <;> simp [hfi, pure_eq, R.ok, R.stuck] at h2'
+          | _ => simp [R.stuck] at h2'
+    obtain ⟨ce, ve, c1, h1, rfl, rfl, rfl⟩ := lowerE_field_inv hvar hl
+    constructor
+    · intro t env' w h
+      simp only [evalExpr, bind_eq, bind_ok_iff] at h
+      obtain ⟨t1, ⟨env1, a⟩, t2, hel, h2', rfl⟩ := h
+      obtain ⟨σ1, hx1, hv1, ha1, hf1⟩ := hE.mat h1 ha hel
+      cases a with
+      | recd fs =>
+        cases hfi : fs[i]? with
+        | none => simp [hfi, R.stuck] at h2'
+        | some x =>
+          simp [hfi, pure_eq, R.ok] at h2'
+          obtain ⟨rfl, rfl, rfl⟩ := h2'
+          exact ⟨σ1, t1, [], hx1, by simp [evalValue, hv1, payload, hfi], by simp, ha1, hf1⟩
+      | _ => simp [R.stuck] at h2'
+    · intro t w h
+      simp only [evalExpr, bind_eq, bind_ret_iff] at h
+      rcases h with h | ⟨t1, ⟨env1, a⟩, t2, hel, h2', rfl⟩
+      · exact ExecC.append_ret _ (hE.ret h1 ha h)
+      · cases a with
+        | recd fs => cases hfi : fs[i]? <;> simp [hfi, pure_eq, R.ok, R.stuck] at h2'
+        | _ => simp [R.stuck] at h2'
   | list es => simp [lowerE] at hl
   | fstr ps => simp [lowerE] at hl
 
@@ -767,6 +857,64 @@ theorem simArgs_step {fns n} (hE : SimE fns n) (hA : SimArgs fns n) : SimArgs fn
         · have := (hA es env1 (c1 + 1) cs ts c2 _ h2 (ha1.set_tmp c1 v)).2 t2 w h
           simpa [List.append_assoc] using ExecC.append hx1 this
         · simp [pure_eq, R.ok] at h4
+
+theorem simFields_step {fns n} (hE : SimE fns n) (hF : SimFields fns n) : SimFields fns (n + 1) := by
+  intro es env k i c code c' σ pre hl ha hk hσ hlen
+  cases es with
+  | nil =>
+    simp [lowerFields] at hl; obtain ⟨rfl, rfl⟩ := hl
+    constructor
+    · intro t env' fs h
+      simp [evalInts, R.ok] at h
+      obtain ⟨rfl, rfl, rfl⟩ := h
+      exact ⟨σ, .nil, by simpa using hσ, ha, Frame.refl _ _⟩
+    · intro t v h; simp [evalInts, R.ok] at h
+  | cons e es =>
+    simp [lowerFields, Option.bind_eq_some_iff] at hl
+    obtain ⟨ce, ve, c1, h1, cs, h2, rfl⟩ := hl
+    have ⟨m1, _⟩ := lowerE_mono e c ce ve c1 h1
+    -- what happens once the field's value (an i32) is known
+    have field : ∀ t1 env1 nv, evalExpr fns n env e = ⟨t1, .ok (env1, .int nv)⟩ →
+        ∃ σ1, ExecC σ (ce ++ [.assignField (.t k) i ve]) t1 (.normal (σ1.set (.t k) (.recd (pre ++ [nv]))))
+          ∧ Agree env1 σ1 ∧ Frame c σ σ1 := by
+      intro t1 env1 nv hel
+      obtain ⟨σ1, t1', t2', hx1, hv1, rfl, ha1, hf1⟩ := (hE e env c ce ve c1 σ h1 ha).1 t1 env1 (.int nv) hel
+      have hto : σ1 (.t k) = .recd pre := by rw [hf1 k hk, hσ]
+      have s1 : ExecS σ1 (.assignField (.t k) i ve) t2' (.normal (σ1.set (.t k) (.recd (pre ++ [nv])))) :=
+        .assignField hv1 (by simp [hto, setPayload, hlen])
+      exact ⟨σ1, ExecC.append hx1 (ExecC.single s1), ha1, hf1⟩
+    constructor
+    · intro t env' fs h
+      simp only [evalInts, bind_eq, bind_ok_iff] at h
+      obtain ⟨t1, ⟨env1, v⟩, t2, hel, h2', rfl⟩ := h
+      cases v with
+      | int nv =>
+        simp only [bind_eq, bind_ok_iff] at h2'
+        obtain ⟨t3, ⟨env2, fs'⟩, t4, hes, h4, rfl⟩ := h2'
+        simp [pure_eq, R.ok] at h4
+        obtain ⟨rfl, rfl, rfl⟩ := h4
+        obtain ⟨σ1, hx1, ha1, hf1⟩ := field t1 env1 nv hel
+        obtain ⟨σ2, hx2, hv2, ha2, hf2⟩ := (hF es env1 k (i + 1) c1 cs c' (σ1.set (.t k) (.recd (pre ++ [nv]))) (pre ++ [nv]) h2
+          (ha1.set_tmp _ _) (by omega) (by simp) (by simp [hlen])).1 t3 env2 fs' hes
+        refine ⟨σ2, ?_, by simpa using hv2, ha2,
+          ((hf1.mono (by omega)).trans (Frame.set_tmp _ _ (Nat.le_refl _)) (Nat.le_refl _)).trans hf2 (Nat.le_refl _)⟩
+        simpa [List.append_assoc] using ExecC.append hx1 hx2
+      | _ => simp [R.stuck] at h2'
+    · intro t w h
+      simp only [evalInts, bind_eq, bind_ret_iff] at h
+      rcases h with h | ⟨t1, ⟨env1, v⟩, t2, hel, h2', rfl⟩
+      · have := hE.ret h1 ha h
+        simpa [List.append_assoc] using ExecC.append_ret _ this
+      · cases v with
+        | int nv =>
+          simp only [bind_eq, bind_ret_iff] at h2'
+          rcases h2' with h | ⟨t3, ⟨env2, fs'⟩, t4, hes, h4, rfl⟩
+          · obtain ⟨σ1, hx1, ha1, hf1⟩ := field t1 env1 nv hel
+            have := (hF es env1 k (i + 1) c1 cs c' (σ1.set (.t k) (.recd (pre ++ [nv]))) (pre ++ [nv]) h2
+              (ha1.set_tmp _ _) (by omega) (by simp) (by simp [hlen])).2 t2 w h
+            simpa [List.append_assoc] using ExecC.append hx1 this
+          · simp [pure_eq, R.ok] at h4
+        | _ => simp [R.stuck] at h2'
 
 theorem simSeq_step {fns n} (hE : SimE fns n) (hS : SimSeq fns n) : SimSeq fns (n + 1) := by
   intro b env c code x c' σ hl ha
@@ -902,9 +1050,10 @@ theorem simWhile_step {fns n} (hE : SimE fns n) (hB : SimBlock fns n) (hW : SimW
             simpa [List.append_assoc] using ExecS.whlStep hx1 (by simp) hx2 hx3
       | _ => simp [R.stuck] at h2'
 
-theorem sim_all (fns : List FnDef) : ∀ n, SimE fns n ∧ SimArgs fns n ∧ SimSeq fns n ∧ SimBlock fns n ∧ SimWhile fns n
+theorem sim_all (fns : List FnDef) :
+    ∀ n, SimE fns n ∧ SimArgs fns n ∧ SimSeq fns n ∧ SimBlock fns n ∧ SimWhile fns n ∧ SimFields fns n
   | 0 => by
-    refine ⟨?_, ?_, ?_, ?_, ?_⟩
+    refine ⟨?_, ?_, ?_, ?_, ?_, ?_⟩
     · intro e env c code value c' σ _ _
       exact ⟨fun t env' v h => by simp [evalExpr, R.fuel] at h, fun t v h => by simp [evalExpr, R.fuel] at h⟩
     · intro es env c code tmps c' σ _ _
@@ -915,9 +1064,12 @@ theorem sim_all (fns : List FnDef) : ∀ n, SimE fns n ∧ SimArgs fns n ∧ Sim
       exact ⟨fun t env' v h => by simp [evalBlock, R.fuel] at h, fun t v h => by simp [evalBlock, R.fuel] at h⟩
     · intro cnd b env c cc vc c1 cb xb c2 σ _ _ _
       exact ⟨fun t env' v h => by simp [evalWhile, R.fuel] at h, fun t v h => by simp [evalWhile, R.fuel] at h⟩
+    · intro es env k i c code c' σ pre _ _ _ _ _
+      exact ⟨fun t env' v h => by simp [evalInts, R.fuel] at h, fun t v h => by simp [evalInts, R.fuel] at h⟩
   | n + 1 => by
-    obtain ⟨hE, hA, hS, hB, hW⟩ := sim_all fns n
-    exact ⟨simE_step hE hA hB hW, simArgs_step hE hA, simSeq_step hE hS, simBlock_step hS, simWhile_step hE hB hW⟩
+    obtain ⟨hE, hA, hS, hB, hW, hF⟩ := sim_all fns n
+    exact ⟨simE_step hE hA hF hB hW, simArgs_step hE hA, simSeq_step hE hS, simBlock_step hS, simWhile_step hE hB hW,
+      simFields_step hE hF⟩
 
 
 /-! ### the structured MIR is deterministic -/
